@@ -41,16 +41,18 @@ Emit == PrintT(ToJson(Case))
 
 AllUnset == [f \in NameSet |-> IF kind[f] = "b" THEN "F" ELSE "-"]
 Theorems ==
-  /\ WellFormedDef(Def)
-  /\ N <= 3 => Product(1) = Assignments(Def)      \* (6^N candidate functions: only for small N)
+  LET D == Def IN
+  /\ WellFormedDef(D)
+  /\ N <= 3 => Product(1) = Assignments(D)      \* (6^N candidate functions: only for small N)
   /\ \A a \in Product(1) :
-        /\ Executable(Def, a) <=> Broken(Def, a) = {}
+        LET ex == Executable(D, a) IN
+        /\ ex <=> Broken(D, a) = {}
         \* removing a clause family never makes an executable assignment non-executable
-        /\ Executable(Def, a) => Executable(NoRequires(Def), a) /\ Executable(NoXor(Def), a)
+        /\ ex => Executable(NoRequires(D), a) /\ Executable(NoXor(D), a)
         \* a definition without rules and without mandatory fields accepts everything
-        /\ (\A f \in NameSet : kind[f] # "m") => Executable(NoXor(NoRequires(Def)), a)
+        /\ (\A f \in NameSet : kind[f] # "m") => Executable(NoXor(NoRequires(D)), a)
         \* requires only ever constrains assignments in which the owner is set
-        /\ (\A f \in NameSet : req[f] # {} => ~IsSet(a, f)) => RequiresHold(Def, a)
+        /\ (\A f \in NameSet : req[f] # {} => ~IsSet(a, f)) => RequiresHold(D, a)
   \* nothing set: executable iff every group allows none and nothing is mandatory
-  /\ Executable(Def, AllUnset) <=> (\A g \in xor : g.none) /\ (\A f \in NameSet : kind[f] # "m")
+  /\ Executable(D, AllUnset) <=> (\A g \in xor : g.none) /\ (\A f \in NameSet : kind[f] # "m")
 =============================================================================
